@@ -89,3 +89,74 @@ Example C26_ex_shape :
   show_shape (w_out (run_calls (fun x => x) x_sE x_sM 2 (new_writer (fun x => x) x_sE [] [] 0%Z)
                        [x_call B"1"; x_call B"2"; x_call B"3"; x_call B"4"; x_call B"5"])) = B"S,L2,G,L2,G,L1".
 Proof. vm_compute. reflexivity. Qed.
+
+(* ---- the process environment: Location of Entry.Timestamp ----------------------------------- *)
+(* Entry.Timestamp is a time.Time = (instant, Location).  LOG entries are stamped time.Now() (process-local zone),
+   GENESIS/GROUNDING entries time.Now().UTC().  Everything that consumes the timestamp — the entry hash, the binary
+   encoder and the JSON encoder (which prints Timestamp.UTC() with a literal Z) — is a function of the instant only:
+   the offset of the Location does not matter. *)
+Theorem C26_timestamp_consumers_see_instant_only : forall (e : entry) (off : Z),
+  hash_input_go {| g_e := e; g_off := off |} = hash_input_go {| g_e := e; g_off := 0%Z |} /\
+  enc_bin_go {| g_e := e; g_off := off |} = enc_bin_go {| g_e := e; g_off := 0%Z |} /\
+  enc_json_go {| g_e := e; g_off := off |} = enc_json_go {| g_e := e; g_off := 0%Z |}.
+Proof.
+  intros e off. rewrite !hash_input_go_inst, !enc_bin_go_inst, !enc_json_go_inst. repeat split; reflexivity.
+Qed.
+Print Assumptions C26_timestamp_consumers_see_instant_only.
+
+(* decode . encode preserves the instant (the Location becomes UTC for JSON, the reading process' zone for binary) *)
+Theorem C26_roundtrip_preserves_instant : forall (e : entry) (off : Z) (zone : Z -> Z),
+  (wf_json e -> dec_json_go (enc_json_go {| g_e := e; g_off := off |}) = Some {| g_e := e; g_off := 0%Z |}) /\
+  (wf_bin e -> forall bs rest, enc_bin_go {| g_e := e; g_off := off |} = Some bs ->
+               dec_bin_go zone (bs ++ rest) = ROk {| g_e := e; g_off := zone (e_ts e) |} rest).
+Proof.
+  intros e off zone. split; [apply dec_json_go_enc | intros Hwf bs rest Henc; apply (dec_bin_go_enc zone e off bs rest Hwf Henc)].
+Qed.
+Print Assumptions C26_roundtrip_preserves_instant.
+
+(* write -> read back -> verify, for EVERY assignment of Locations [offs] to the entries' timestamps and every zone of
+   the reading process: both the JSON and the binary file decode to exactly the entries written (same instants, hence
+   same hashes) and the validator accepts them.  Extra premises for the binary form: SHA-512 digests are 64 bytes,
+   timestamps fit int64 nanoseconds, the recorded strings/integers fit their Go types. *)
+Theorem C26_written_log_verifies_in_every_zone :
+  forall (H : bytes -> bytes) (signE signM : bytes -> bytes) (vE vM : bytes -> bytes -> bool)
+         (useE useM : bool) (block : N),
+  (forall h, vE h (signE h) = true) -> (forall h, vM h (signM h) = true) ->
+  (forall x, lenN (H x) = sha_size) ->
+  (forall h, lenN (signE h) = ed_sig_size) -> (forall h, lenN (signM h) = mldsa_sig_size) -> 0 < block ->
+  forall (ts : Z) (calls : list call), i64_ok ts -> Forall call_ok calls ->
+  let L := w_out (run_calls H signE signM block (new_writer H signE [] [] ts) calls) in
+  forall (offs : list Z) (zone : Z -> Z) (fuel : nat), (length L < fuel)%nat ->
+  (exists gs, mapM dec_json_go (map enc_json_go (zipg L offs)) = Some gs /\ map g_e gs = L) /\
+  (exists chunks gs, mapM enc_bin_go (zipg L offs) = Some chunks /\
+                     dec_all_go zone fuel (concat chunks) = (gs, None) /\ map g_e gs = L) /\
+  accepted H vE vM useE useM block L = true.
+Proof. exact written_log_any_zone_stmt. Qed.
+Print Assumptions C26_written_log_verifies_in_every_zone.
+
+(* ... and after reopen (NewFileSink) + append, JSON form *)
+Theorem C26_restart_verifies_in_every_zone :
+  forall (H : bytes -> bytes) (signE signM : bytes -> bytes) (vE vM : bytes -> bytes -> bool)
+         (useE useM : bool) (block : N),
+  (forall h, vE h (signE h) = true) -> (forall h, vM h (signM h) = true) ->
+  (forall h, lenN (signE h) = ed_sig_size) -> (forall h, lenN (signM h) = mldsa_sig_size) -> 0 < block ->
+  forall (L0 : list entry) (st0 : vstate) (ts : Z) (calls : list call),
+  Forall wf_json L0 ->
+  validate_from H vE vM useE useM block init_state L0 = VOk st0 -> L0 <> [] ->
+  all_zero (v_prev st0) = false -> lenL (v_buf st0) < block ->
+  let L := L0 ++ w_out (run_calls H signE signM block (new_writer H signE (v_prev st0) (v_buf st0) ts) calls) in
+  forall offs : list Z,
+  (exists gs, mapM dec_json_go (map enc_json_go (zipg L offs)) = Some gs /\ map g_e gs = L) /\
+  accepted H vE vM useE useM block L = true.
+Proof. exact restart_any_zone_stmt. Qed.
+Print Assumptions C26_restart_verifies_in_every_zone.
+
+(* non-vacuity: the instant printed (after .UTC()) vs. the local calendar reading of the same time.Time in UTC+02:00 *)
+Definition w_genesis_like : entry :=
+  {| e_ver := 3; e_ts := 0%Z; e_type := t_log; e_det := DLog (start_details {| o_op := B"PutObject"; o_bucket := B"b"; o_key := B"k";
+     o_upload := []; o_part := 0%Z; o_srcb := []; o_srck := []; o_upload_result := []; o_cred := []; o_auth := B"anonymous";
+     o_reqid := []; o_trace := []; o_ip := []; o_err := [] |}); e_prev := []; e_hash := []; e_sig := [] |}.
+Example C26_ex_zone :
+  let g := {| g_e := with_ts w_genesis_like 1700000000500000000%Z; g_off := 7200%Z |} in
+  j_ts (enc_json_go g) = 1700000000500000000%Z /\ t_wall (g_time g) = 1700007200500000000%Z.
+Proof. vm_compute. split; reflexivity. Qed.
